@@ -72,6 +72,7 @@ class Forward:
         self.sym.state = self.st.slots
         self.returns: List[Tuple[ast.Return, Optional[Poly], State]] = []
         self.version = 0
+        self.sym.suffix = self._suffix
         for p in fa.f.params:
             self.st.locals[p] = Poly.atom(p)
 
@@ -142,6 +143,19 @@ class Forward:
                         self.st.slots[sk] = Poly.atom(f"{sk}@v{self.version}")
                 self.version += 1
                 self._barrier(written)
+
+    def _suffix(self, key: str) -> str:
+        """Reads of state not tracked yet are versioned by the last call that
+        may have written the attribute."""
+        best = 0
+        for k, v in self.st.slots.items():
+            if k.startswith("<version:"):
+                a = k[len("<version:"):-1]
+                if ("." + a) in key:
+                    c = v.const_value()
+                    if c is not None:
+                        best = max(best, int(c))
+        return f"@v{best}" if best else ""
 
     def _barrier(self, written: Set[str]):
         """After a call that writes attributes, unseen reads of those attributes
